@@ -15,7 +15,7 @@ FUNCTIONS = [
 BOUNDS = ("Two builders start at the same symbolic position, one in absolute and one in relative "
           "mode, and receive the same logical toolpath (absolute waypoints, expressed as offsets "
           "for the relative one). (a) moves: cell grid entry {move, rapid, move_absolute, "
-          "rapid_absolute, move inside absolute_mode()/relative_mode()} x 1 or 2 waypoints; solver "
+          "rapid_absolute, move inside absolute_mode()/relative_mode(), a block that switches the mode itself} x 1 or 2 waypoints; solver "
           "over start and waypoints: the interpreted machine positions after every line and the "
           "tracked positions are equal. (b) tracer shapes {arc, helix, arc_radius, circle, thread, "
           "spiral, spline(2 points), polyline(2 points)} x 2D/3D: the absolute geometry handed to "
@@ -84,6 +84,19 @@ def _make_moves(kind, nway):
                 def in_b():
                     with gb.absolute_mode():
                         gb.move(**kw_abs)
+                ea, eb = attempt(in_a), attempt(in_b)
+            elif kind == "ctx-inner-switch":
+                # both enter absolute_mode(), switch to relative themselves inside the block and
+                # move by the offset; afterwards each must be back in its own base mode
+                def in_a():
+                    with ga.absolute_mode():
+                        ga.set_distance_mode("relative")
+                        ga.move(**kw_rel)
+
+                def in_b():
+                    with gb.absolute_mode():
+                        gb.set_distance_mode("relative")
+                        gb.move(**kw_rel)
                 ea, eb = attempt(in_a), attempt(in_b)
             if ea is not None or eb is not None:
                 msg = f"abs: {exc_name(ea)} {ea}; rel: {exc_name(eb)} {eb}"
@@ -279,7 +292,7 @@ def validate():
 def cells(tier):
     out = []
     budget = 150 if tier == "quick" else 600
-    for kind in ("move", "rapid", "move_absolute", "rapid_absolute", "ctx"):
+    for kind in ("move", "rapid", "move_absolute", "rapid_absolute", "ctx", "ctx-inner-switch"):
         for nway in (1, 2):
             out.append(Cell(f"moves|{kind}|waypoints={nway}", _make_moves(kind, nway), budget_s=budget,
                             must_reach=("compared",), entry=f"GCodeBuilder.{kind}"))
